@@ -213,3 +213,50 @@ def sw_state(h, fr, g=9.81):
 def all_assignments(alphabet, n):
     """every assignment of alphabet letters to n cells (generator of index tuples)"""
     return itertools.product(range(len(alphabet)), repeat=n)
+
+
+# ---------------------------------------------------------------------------
+# generic 1D problem builder used by the operator-level checks
+def bc_dict(spec):
+    """spec: 'per' | 'sym' | ('dirichlet', prim list) | (name, params dict) -> dictionary for modeldisc"""
+    if isinstance(spec, str):
+        return {"type": spec}
+    name, par = spec
+    if name == "dirichlet":
+        return {"type": "dirichlet", "prim": [np.float64(x) for x in par]}
+    d = dict(par)
+    d["type"] = name
+    return d
+
+
+def build_1d(model_spec, flux, recon_name, mesh, bcl="per", bcr="per"):
+    model = make_model(model_spec)
+    disc = modeldisc.fvm(model, mesh, recon(recon_name), numflux=flux, bcL=bc_dict(bcl), bcR=bc_dict(bcr))
+    return model, disc
+
+
+def cons_alphabet(kind, strength="mild", gamma=1.4, g=9.81):
+    """list of per-cell conservative state vectors (np arrays of length neq)"""
+    if kind in ("convection", "burgers"):
+        vals = S_QUICK if strength != "thorough" else S_THORO
+        return [np.array([v]) for v in vals]
+    if kind in ("euler1d", "nozzle"):
+        if strength == "mild":      # max/min < 2.25: unlimited extrapolations stay admissible
+            prim = [euler_state(1.0, 0.0, 1.0, gamma), euler_state(2.0, 0.5, 1.0, gamma), euler_state(1.0, -0.5, 2.0, gamma),
+                    euler_state(2.0, 1.5, 2.0, gamma), euler_state(1.5, -1.5, 1.5, gamma)]
+        else:
+            prim = [euler_state(1.0, 0.0, 1.0, gamma), euler_state(1e-3, 1.0, 1e-3, gamma), euler_state(1e3, -0.5, 1.0, gamma),
+                    euler_state(1.0, 3.0, 1e3, gamma), euler_state(0.3, -3.0, 0.3, gamma), euler_state(1e3, 0.5, 1e3, gamma)]
+        return [np.array([r, r * u, p / (gamma - 1.0) + 0.5 * r * u * u]) for r, u, p in prim]
+    if kind == "shallowwater":
+        if strength == "mild":
+            prim = [sw_state(1.0, 0.0, g), sw_state(2.0, 0.5, g), sw_state(1.0, -0.5, g), sw_state(2.0, 1.5, g), sw_state(1.5, -1.5, g)]
+        else:
+            prim = [sw_state(1.0, 0.0, g), sw_state(1e-3, 1.0, g), sw_state(1e3, -0.5, g), sw_state(0.3, 3.0, g), sw_state(1.0, -3.0, g)]
+        return [np.array([h, h * u]) for h, u in prim]
+    raise KeyError(kind)
+
+
+def field_from_letters(model, mesh, alphabet, idx, t=0.0):
+    data = [np.array([alphabet[i][k] for i in idx], dtype=float) for k in range(model.neq)]
+    return field.fdata(model, mesh, data, t=t)
